@@ -246,6 +246,7 @@ func main() {
 		},
 		QuickDeadline: 150, ThoroughDeadline: 840,
 		Run: func(t *vlib.T) {
+			runFlood(t)
 			runGrid(t)
 			runMut(t)
 			runLex(t)
